@@ -108,10 +108,24 @@ class Hist:
         self.nested = [[S("car"), S(nl)], [S("vector-ref"), S(nv), 0], [S("car"), [S("car"), [S("cdr"), [S("cdr"), S(nl)]]]]]
         self.lits += [nv]
         self.lists += []
+        self.big = None
+        if r.random() < 0.25:
+            # a vector of hundreds of slots with an alias: writes and reads at both ends and in the middle
+            b1, b2 = self.name("big"), self.name("big")
+            n = r.choice([100, 300, 1000])
+            F.append([S("define"), S(b1), [S("make-vector"), n, 0]]); F.append([S("define"), S(b2), S(b1)])
+            self.big = (b1, b2, n)
         F.append(self.probe())
         while len(F) < steps:
             c = r.random()
             wrote = True
+            if self.big and r.random() < 0.1:
+                b1, b2, n = self.big
+                i = r.choice([0, n - 1, n // 2, r.randrange(n)])
+                a, b = r.sample([b1, b2], 2) if r.random() < 0.7 else (b1, b1)
+                F.append([S("vector-set!"), S(a), i, self.uniq()])
+                F.append([S("list"), [S("vector-ref"), S(b), i], [S("vector-ref"), S(b), r.choice([0, n - 1, (i + 1) % n])], [S("vector-length"), S(b)], [S("eq?"), S(b1), S(b2)]])
+                continue
             if c < 0.22:
                 name, kind = r.choice(self.counters)
                 if kind == "make-counter":
